@@ -20,7 +20,7 @@ from harness import core
 from harness.props import _crew_common as CC
 
 MANIFEST_ENTRY = {
-    "text": "Lean theorem C10 proves over the cost model built on the crew-day model: the daily row's cost = sum over methods of (deployment cost + upfront on the first day) + the program's own repair cost, natural-repair cost separate (row_identity); a per-site method's deployment cost of a day = sum over the surveys completed that day of the site's survey cost (method cost when the site cost is 0), for every deployment type, crew count and work plan (the four method classes share the loop; that they do is established by the four-class correspondence, not in Lean) incl. surveys that exhaust the crew, weather aborts and partial surveys (per_site_once), and exactly once over the days of a resumed survey (per_site_once_multiday); per-day methods pay unit cost x deployed crews, stationary x planned sites (per_day_once); over a run the upfront cost x crews is contained exactly once (upfront_once, upfront_amount) and is a function of the method parameters alone however many methods were built before from the same dict (upfront_frame); each program repair books its cost exactly once, on the day the leak turns repaired, natural repairs go to the other column (repair_once, repair_on_repair_day), and at program level the repair column of the rows sums over a run to the costs of exactly the leaks the program repaired (program_repairs_once); one step of the multi-day charge model is deployDay on that day's one-request plan (surveyCostRun_step_is_deployDay); a program without methods costs nothing (no_methods_no_cost); table obligation cost_no_cross_case_state (regenerated from /repo every run: only the two read-only dispatch tables are class-level containers, nothing shared is mutated or cached, known pickle hooks only); same-process history with colliding method names/site ids/dates in both orders and in a fresh process, construction sequences from one shared properties dict, multi-valued repair-cost lists, debug and pool mode whole runs. The model follows the code after two fix: commits (component-level per-site charge on completion; stationary component-level daily cost per planned site). Tied on every run to the real constructors, deploy_crews of all four method classes, the real row functions, the first_day wiring read from ldar_sim.py, and the real repair booking; the clauses are evaluated directly on implementation outputs; whole simulations compare timeseries cost columns with wrapper counts.",
+    "text": "Lean theorem C10 proves over the cost model built on the crew-day model: the daily row's cost = sum over methods of (deployment cost + upfront on the first day) + the program's own repair cost, natural-repair cost separate (row_identity); a per-site method's deployment cost of a day = sum over the surveys completed that day of the site's survey cost (method cost when the site cost is 0), for every deployment type, crew count and work plan (the four method classes share the loop; that they do is established by the four-class correspondence, not in Lean) incl. surveys that exhaust the crew, weather aborts and partial surveys (per_site_once), and exactly once over the days of a resumed survey (per_site_once_multiday); per-day methods pay unit cost x deployed crews, stationary x planned sites (per_day_once); over a run the upfront cost x crews is contained exactly once (upfront_once, upfront_amount) and is a function of the method parameters alone however many methods were built before from the same dict (upfront_frame); each program repair books its cost exactly once, on the day the leak turns repaired, natural repairs go to the other column (repair_once, repair_on_repair_day), and at program level the repair column of the rows sums over a run to the costs of exactly the leaks the program repaired (program_repairs_once); one step of the multi-day charge model is deployDay on that day's one-request plan (surveyCostRun_step_is_deployDay); a program without methods costs nothing (no_methods_no_cost); table obligation cost_no_cross_case_state (regenerated from /repo every run: only the two read-only dispatch tables are class-level containers, nothing shared is mutated or cached, known pickle hooks only); same-process history with colliding method names/site ids/dates in both orders and in a fresh process, construction sequences from one shared properties dict, multi-valued repair-cost lists, debug and pool mode whole runs. The model follows the code after two fix: commits (component-level per-site charge on completion; stationary component-level daily cost per planned site). Tied on every run to the real constructors, deploy_crews of all four method classes, the real row functions, the first_day wiring read from ldar_sim.py, and the real repair booking; the clauses are evaluated directly on implementation outputs; whole simulations compare timeseries cost columns with wrapper counts. Layer 3 (every run): Method.survey_site (with _determine_if_site_survey_can_be_completed) is translated from the current source to Lean (harness/extract/py2lean.py, crew_src.py -> Generated/CrewSrc.lean) and Props/CrewTie.lean is re-checked: report, crew minutes, returned values and dates after the translated call are Crew.surveyStep / applyStep for all inputs; a method outside the translated subset is a note, a failing tie theorem a broken obligation. The EmisInfo repair counters of the translated emission classes (Props/EmissionTie.lean: RE_update_info ...) are re-checked the same way.",
     "design_ref": "DESIGN.md 5.10, 4.2, 4.1",
     "note": "trusted: Lean kernel + propext/Classical.choice/Quot.sound; hand-written model tied by sampled/exhaustive correspondence; harness adapters and stubs; costs are integers in the model (integer-valued floats are exact in the implementation); sampled repair cost lists (random.choice) are inputs; CSV float formatting (%.5f) of the timeseries is outside; 'monitored site-day' = planned site-day of a stationary method (DESIGN 5.10); 'deployed crew-day' = a crew sent to at least one site with workable weather, also when it then has no time left to travel (method.py:343-344 sets site_visit before the time test)",
     "technique": "Lean 4 proofs over the cost/crew/emission models + differential correspondence with the real classes + direct oracle (+ whole-run trace oracle)",
